@@ -60,7 +60,7 @@ var (
 	tokValueLabels = []string{"bool", "int0", "int1", "int-1", "int53max", "int53min", "float1.5", "float1.0", "float-0", "float-min", "float-max",
 		"str-empty", "str-ascii", "str-utf8", "bytes-empty", "bytes", "list", "map", "link", "null"}
 
-	timeLabels = []string{"absent", "whole", "subsec", "in-past", "2^53-1", "2^53", "y9999", "maxtime", "zero", "epoch", "unix-1", "unix1", "subsec-up"}
+	timeLabels = []string{"absent", "whole", "subsec", "in-past", "2^53-1", "2^53", "y9999", "maxtime", "zero", "epoch", "unix-1", "unix1", "subsec-up", "zone+5h30", "zone-11h-subsec"}
 )
 
 func tokValue(label string) any {
@@ -150,6 +150,10 @@ func tokTime(label string) (time.Time, bool) {
 		return time.Unix(-1, 0), true
 	case "unix1":
 		return time.Unix(1, 0), true
+	case "zone+5h30": // the same kind of instant, expressed in another time zone
+		return time.Date(2200, 6, 1, 12, 0, 0, 0, time.FixedZone("X", 5*3600+1800)), true
+	case "zone-11h-subsec":
+		return time.Date(2200, 6, 1, 12, 0, 0, 999_999_999, time.FixedZone("Y", -11*3600)), true
 	case "subsec-up": // a fraction above one half
 		return time.Date(2200, 1, 1, 0, 0, 0, 750_000_000, time.UTC), true
 	}
@@ -239,7 +243,7 @@ func invOptDefs() []optDef {
 		{"args", argsLabels()},
 		{"prf", []string{"1", "0", "3"}},
 		{"exp", timeLabels},
-		{"iat", []string{"auto", "none", "whole", "subsec", "2^53", "zero", "epoch", "unix-1", "subsec-up"}},
+		{"iat", []string{"auto", "none", "whole", "subsec", "2^53", "zero", "epoch", "unix-1", "subsec-up", "zone+5h30", "zone-11h-subsec"}},
 		{"meta", metaLabels()},
 		{"nonce", []string{"auto", "12", "64", "empty"}},
 		{"cause", []string{"nil", "cid"}},
@@ -296,6 +300,126 @@ func applyKV(label string, add func(k string, v any) error, addEnc func(k string
 		return nil
 	}
 	panic("bad kv label " + label)
+}
+
+// ---- size-threshold options ("size:<field>" -> n): one field of the token grown to exactly n ----
+
+// SizeFields lists, per token kind, the fields that can be grown and the sizes of each tier.
+func SizeFields(kind string) []string {
+	common := []string{"meta-str", "meta-bytes", "meta-count", "meta-list", "nonce", "cmd-segs", "cmd-len"}
+	if kind == "dlg" {
+		return append(common, "pol-count", "pol-depth", "pol-and-width", "sel-len", "like-len", "pol-lit-str")
+	}
+	return append(common, "arg-str", "arg-bytes", "arg-list", "arg-map", "args-count", "arg-depth", "prf")
+}
+
+func SizesFor(field, tier string) []int {
+	switch field {
+	case "pol-depth", "arg-depth":
+		if tier == "thorough" {
+			return []int{2, 8, 31, 32, 33, 64, 128, 256, 512}
+		}
+		return []int{2, 8, 32, 64, 256}
+	case "cmd-segs", "args-count", "meta-count", "pol-count", "pol-and-width", "prf":
+		if tier == "thorough" {
+			return []int{2, 23, 24, 25, 127, 128, 255, 256, 257, 1024, 4096}
+		}
+		return []int{23, 24, 255, 256, 1024}
+	case "nonce":
+		return []int{12, 13, 23, 24, 32, 64, 255, 256, 4096}
+	}
+	if tier == "thorough" {
+		return []int{0, 1, 23, 24, 25, 255, 256, 257, 1023, 1024, 4095, 4096, 4097, 65535, 65536, 65537, 1 << 20}
+	}
+	return []int{23, 24, 255, 256, 1024, 4096, 65535, 65536}
+}
+
+func growCommand(field string, n int) command.Command {
+	if field == "cmd-segs" {
+		return command.Command(strings.Repeat("/s", n))
+	}
+	return command.Command("/" + strings.Repeat("c", n))
+}
+
+func growPolicy(field string, n int) policy.Policy {
+	switch field {
+	case "pol-count":
+		cons := make([]policy.Constructor, n)
+		for i := range cons {
+			cons[i] = policy.Equal(".a", literal.Int(int64(i)))
+		}
+		return policy.MustConstruct(cons...)
+	case "pol-depth":
+		c := policy.Equal(".a", literal.Int(1))
+		for i := 0; i < n; i++ {
+			switch i % 3 {
+			case 0:
+				c = policy.Not(c)
+			case 1:
+				c = policy.And(c)
+			default:
+				c = policy.Any(".l", c)
+			}
+		}
+		return policy.MustConstruct(c)
+	case "pol-and-width":
+		cons := make([]policy.Constructor, n)
+		for i := range cons {
+			cons[i] = policy.GreaterThan(".b", literal.Int(int64(i)))
+		}
+		return policy.MustConstruct(policy.Or(policy.And(cons...)))
+	case "sel-len":
+		return policy.MustConstruct(policy.Equal("."+strings.Repeat("f", n), literal.Int(1)))
+	case "like-len":
+		return policy.MustConstruct(policy.Like(".a", strings.Repeat("p", n)+`\**`))
+	case "pol-lit-str":
+		return policy.MustConstruct(policy.Equal(".a", literal.String(strings.Repeat("v", n))))
+	}
+	panic(field)
+}
+
+func growValue(field string, n int) any {
+	switch strings.TrimPrefix(strings.TrimPrefix(field, "arg-"), "meta-") {
+	case "str":
+		return strings.Repeat("s", n)
+	case "bytes":
+		return bytes.Repeat([]byte{0xb7}, n)
+	case "list":
+		l := make([]int, n)
+		for i := range l {
+			l[i] = i % 7
+		}
+		return l
+	case "map":
+		m := make(map[string]int, n)
+		for i := 0; i < n; i++ {
+			m[fmt.Sprintf("k%06d", i)] = i
+		}
+		return m
+	case "depth":
+		var v any = 1
+		for i := 0; i < n; i++ {
+			if i%2 == 0 {
+				v = []any{v}
+			} else {
+				v = map[string]any{"d": v}
+			}
+		}
+		return v
+	}
+	panic(field)
+}
+
+// sizeOption returns the "size:<field>" option of the spec, if any.
+func sizeOption(spec TokSpec) (string, int, bool) {
+	for k, v := range spec.Opts {
+		if strings.HasPrefix(k, "size:") {
+			n := 0
+			fmt.Sscanf(v, "%d", &n)
+			return strings.TrimPrefix(k, "size:"), n, true
+		}
+	}
+	return "", 0, false
 }
 
 // BuildToken constructs the token described by spec with the public constructors.
@@ -356,12 +480,29 @@ func BuildToken(spec TokSpec) (any, *fixtures.Key, error) {
 		case "64":
 			opts = append(opts, delegation.WithNonce(bytes.Repeat([]byte{0xab}, 64)))
 		}
+		cmd, pol := tokCommand(opt("cmd", "/a")), tokPolicy(opt("pol", "empty"))
+		if f, n, ok := sizeOption(spec); ok {
+			switch {
+			case strings.HasPrefix(f, "cmd-"):
+				cmd = growCommand(f, n)
+			case strings.HasPrefix(f, "pol-") || f == "sel-len" || f == "like-len":
+				pol = growPolicy(f, n)
+			case f == "nonce":
+				opts = append(opts, delegation.WithNonce(bytes.Repeat([]byte{0x5c}, n)))
+			case f == "meta-count":
+				for i := 0; i < n; i++ {
+					opts = append(opts, delegation.WithMeta(fmt.Sprintf("m%06d", i), i))
+				}
+			case strings.HasPrefix(f, "meta-"):
+				opts = append(opts, delegation.WithMeta("big", growValue(f, n)))
+			}
+		}
 		var t *delegation.Token
 		var err error
 		if opt("sub", "iss") == "root" {
-			t, err = delegation.Root(k.DID, aud, tokCommand(opt("cmd", "/a")), tokPolicy(opt("pol", "empty")), opts...)
+			t, err = delegation.Root(k.DID, aud, cmd, pol, opts...)
 		} else {
-			t, err = delegation.New(k.DID, aud, tokCommand(opt("cmd", "/a")), tokPolicy(opt("pol", "empty")), opts...)
+			t, err = delegation.New(k.DID, aud, cmd, pol, opts...)
 		}
 		if err != nil {
 			return nil, k, err
@@ -444,7 +585,33 @@ func BuildToken(spec TokSpec) (any, *fixtures.Key, error) {
 		c := cidPool[43]
 		opts = append(opts, invocation.WithCause(&c))
 	}
-	t, err := invocation.New(k.DID, sub, tokCommand(opt("cmd", "/a")), prf, opts...)
+	cmd := tokCommand(opt("cmd", "/a"))
+	if f, n, ok := sizeOption(spec); ok {
+		switch {
+		case strings.HasPrefix(f, "cmd-"):
+			cmd = growCommand(f, n)
+		case f == "nonce":
+			opts = append(opts, invocation.WithNonce(bytes.Repeat([]byte{0x5c}, n)))
+		case f == "prf":
+			prf = make([]cid.Cid, n)
+			for i := range prf {
+				prf[i] = synthCid(1000 + i)
+			}
+		case f == "args-count":
+			for i := 0; i < n; i++ {
+				opts = append(opts, invocation.WithArgument(fmt.Sprintf("a%06d", i), i))
+			}
+		case f == "meta-count":
+			for i := 0; i < n; i++ {
+				opts = append(opts, invocation.WithMeta(fmt.Sprintf("m%06d", i), i))
+			}
+		case strings.HasPrefix(f, "arg-"):
+			opts = append(opts, invocation.WithArgument("big", growValue(f, n)))
+		case strings.HasPrefix(f, "meta-"):
+			opts = append(opts, invocation.WithMeta("big", growValue(f, n)))
+		}
+	}
+	t, err := invocation.New(k.DID, sub, cmd, prf, opts...)
 	if err != nil {
 		return nil, k, err
 	}
